@@ -725,6 +725,9 @@ pub fn structured<const N: usize>(cfg: QCfg, id: String, mut rng: Rng) -> Case {
                 _ => 1,
             };
             let k = k.min(N + 1);
+            // very large queues: chains of thousands of buffers make the per-store re-validation quadratic;
+            // long chains are exercised on the sizes up to 1024
+            let k = if N >= 4096 && k > 64 { if k > free { free + 1 } else { 1 + k % 64 } } else { k };
             let (i, o) = gen_lens_maybe_empty(&mut rng, k, !(cfg.indirect && k > 1));
             l.add(&mut c, &i, &o, &mut rng);
             if c.steps.last().map(|(_, o)| o.starts_with("panic")).unwrap_or(false) {
@@ -853,6 +856,7 @@ pub fn hostile<const N: usize>(cfg: QCfg, id: String, mut rng: Rng) -> Case {
                 _ => 1,
             }
             .min(N + 1);
+            let k = if N >= 4096 && k > 64 { 1 + k % 64 } else { k };
             let (i, o) = gen_lens(&mut rng, k);
             l.add(&mut c, &i, &o, &mut rng);
         } else if r < 60 {
@@ -1088,7 +1092,7 @@ fn c04_relevant(f: &str) -> bool {
 }
 
 pub fn run(ctx: &Ctx, prop: &str) -> (Vec<Case>, String, bool, BTreeMap<String, String>) {
-    let mut cases = run_structured(ctx, prop, 1500, 60000);
+    let mut cases = run_structured(ctx, prop, 1500, 20000);
     let mut rule = RULE.to_string();
     if prop == "C04" {
         // driver level: every driver's traffic runs over the same recording platform; its share/unshare
